@@ -179,6 +179,7 @@ class Exporter:
         self.defs: dict[str, object] = {}  # name -> Rule object exported under that name
         self.work: list[str] = []
         self.out: list[str] = []
+        self.aliases: dict[str, tuple] = {}
 
     # -- expressions --------------------------------------------------------
     def tag(self, t: object) -> str:
@@ -189,14 +190,35 @@ class Exporter:
         return f" {self.syms.tag(t)}"
 
     def ref_rule_object(self, r: object) -> str:
+        """An embedded Rule object (built-ins are embedded by the front end; `with_children` copies them).
+        A copy that differs from the rule of that name is exported under an alias `NAME@k`."""
         name = r.name
         known = self.defs.get(name)
-        if known is None:
+        if known is None and (name not in self.rules or self.rules[name] is r):
             self.defs[name] = r
             self.work.append(name)
-        elif known is not r:
-            raise ExportError(f"two different rule objects named {name!r}")
-        return f"(ref {self.syms.rule(name)})"
+            return f"(ref {self.syms.rule(name)})"
+        if known is r:
+            return f"(ref {self.syms.rule(name)})"
+        # a different object: same content as the table's rule -> the same rule
+        base = self.rules.get(name, known)
+        if name not in self.defs:
+            self.defs[name] = base
+            self.work.append(name)
+        sub = Exporter(self.rules, self.syms)
+        sub.defs, sub.work, sub.aliases = self.defs, self.work, self.aliases
+        mine = (r.modifier, sub.expr(r.expression))
+        theirs = (base.modifier, sub.expr(base.expression))
+        if mine == theirs:
+            return f"(ref {self.syms.rule(name)})"
+        for alias, (obj, sig) in self.aliases.items():
+            if alias.startswith(name + "@") and sig == mine:
+                return f"(ref {self.syms.rule(alias)})"
+        alias = f"{name}@{len(self.aliases) + 1}"
+        self.aliases[alias] = (r, mine)
+        self.defs[alias] = r
+        self.work.append(alias)
+        return f"(ref {self.syms.rule(alias)})"
 
     def expr(self, e: object) -> str:  # noqa: PLR0911, PLR0912
         ty = type(e)
@@ -293,7 +315,7 @@ class Exporter:
             # hypothesis of InterpProof.iparse_refines_one_modifier / GenProof: a silent rule is not $ or !
             # (the grammar syntax allows one modifier per rule, so the front end never builds one)
             raise ExportError(f"silent rule {name!r} with a $ or ! modifier: outside the proved domain")
-        if r.name != name:
+        if r.name != name and not (name in self.aliases and name.split("@")[0] == r.name):
             raise ExportError(f"rule {name!r} carries name {r.name!r}")
         return f"(rule {self.syms.rule(name)} {silent} {kind} {self.expr(r.expression)})"
 
@@ -321,6 +343,11 @@ def export_parser(parser: object, roots: list[str] | None = None, syms: Symbols 
     ex = Exporter(rules, syms)
     text = ex.export(roots)
     # built-in rules other than EOI are inlined by the code generator (BuiltInRule.generate): Gen.v is told which
+    ex.syms.exported = list(ex.defs)
+    for n, r in ex.defs.items():
+        if isinstance(r, _rule.BuiltInRule) and n != "EOI" and (r.modifier != _rule.SILENT or n in ("WHITESPACE", "COMMENT")):
+            # hypothesis inl_ok of GenProof.gparse_inl / C01_generated_equals_interpreter
+            raise ExportError(f"built-in rule {n!r} emitted in place is not a plain silent rule: outside the proved domain")
     ex.syms.inlined = sorted(ex.syms.rule(n) for n in ex.defs
-                             if isinstance(rules.get(n), _rule.BuiltInRule) and n != "EOI")
+                             if isinstance(ex.defs[n], _rule.BuiltInRule) and n != "EOI")
     return text, ex.syms
